@@ -26,6 +26,10 @@ type c12Case struct {
 	Label string   `json:"label"`
 	Want  string   `json:"want"`
 	Flags []string `json:"flags"`
+	// ViaExt: a user-registered format with the SAME media type (text/html or text/xml) under
+	// text/plain, accepting everything, takes the document before the built-in format does. The
+	// document is still HTML/XML with a declared encoding, so the same charset must be reported.
+	ViaExt bool `json:"via_extension,omitempty"`
 }
 
 var c12Known = []string{"utf-8", "UTF-8", "ISO-8859-1", "iso-8859-1", "windows-1252", "Windows-1251", "Shift_JIS", "EUC-KR", "gb2312", "GBK",
@@ -203,6 +207,7 @@ func c12GenHTML(t *rapid.T) c12Case {
 	}
 	sortStrings(c.Flags)
 	c.Limit = c12GenLimit(t, declEnd, len(c.Doc))
+	c.ViaExt = rapid.IntRange(0, 11).Draw(t, "viaext") == 0
 	return c
 }
 
@@ -261,6 +266,7 @@ func c12GenXML(t *rapid.T) c12Case {
 	}
 	sortStrings(c.Flags)
 	c.Limit = c12GenLimit(t, declEnd, len(c.Doc))
+	c.ViaExt = rapid.IntRange(0, 11).Draw(t, "viaext") == 0
 	return c
 }
 
@@ -278,6 +284,15 @@ func c12Check(c c12Case) vfResult {
 	wantType := "text/html"
 	if c.Kind == "xml" {
 		wantType = "text/xml"
+	}
+	if c.ViaExt {
+		vfTreeSnapshot()
+		vfTreeRestore()
+		defer vfTreeRestore()
+		if p := Lookup("text/plain"); p != nil {
+			p.Extend(func([]byte, uint32) bool { return true }, wantType, ".x")
+		}
+		r.Labels = append(r.Labels, "via-extension-with-same-type")
 	}
 	m := vfDetectAt(doc, c.Limit)
 	mt, params, err := mime.ParseMediaType(m.String())
@@ -303,6 +318,8 @@ func c12Check(c c12Case) vfResult {
 	}
 	if direct != c.Want {
 		r.Err = fmt.Errorf("charset.From%s returns %q, want %q for %s", strings.ToUpper(c.Kind), direct, c.Want, vfQ(h))
+	} else if c.ViaExt {
+		// (the direct sniffer calls and route equivalence are checked on the built-in tree)
 	} else if err := vfRoutes(doc, c.Limit, m); err != nil {
 		r.Err = fmt.Errorf("limit %d: %v; doc %s", c.Limit, err, vfQ(doc))
 	}
